@@ -54,6 +54,9 @@ def chunkedGzipHello : Bytes :=
 def wireChunkedGzipHello : Bytes :=
   lit "HTTP/1.1 200 OK\r\nContent-Encoding: gzip\r\nTransfer-Encoding: chunked\r\n\r\n" ++ chunkedGzipHello
 
+/-- the same for a chunked response (`self.chunked` is set) -/
+def cfgGzipChunked : Cfg CD := { cfgGzipHello with chunked := true }
+
 def out {α β} (x : Except Exc α × β) : Option α := match x.1 with | .ok a => some a | .error _ => none
 def err {α β} (x : Except Exc α × β) : Option Exc := match x.1 with | .ok _ => none | .error e => some e
 
